@@ -368,8 +368,10 @@ def compare(seq, rc, out, plain=False):
     return None
 
 
-def execute(binary, text, plain=False):
+def execute(binary, text, plain=False, patience_ms=None):
     env = dict(os.environ)
+    if patience_ms:
+        env["IOEXEC_PATIENCE_MS"] = str(patience_ms)
     env["ASAN_OPTIONS"] = "detect_leaks=0:exitcode=99:abort_on_error=0:allocator_may_return_null=1"
     try:
         r = subprocess.run([binary] + (["--plain"] if plain else []), input=text, capture_output=True, text=True, timeout=25, env=env)
